@@ -24,14 +24,16 @@ LEVELS = {
             "sequential consistency assumed; std::mutex / std::condition_variable replaced by their specifications; freeList not in the concurrent model (sequential machine)", "5.6"),
     "C07": ("Lean theorem C07_no_lost_wakeup: for well-formed programs (every wait followed by a processing call, DisableQueueNotify balanced) no reachable terminal state has all remaining threads parked while an event is pending "
             "and notification is enabled - including processIf / processUntil put-back; wait returns only with notification enabled; waitFor false only after a time-out with nothing available; model counter-examples for the two repaired defects; "
-            "bridge over the regenerated destructor / read-order fragment. Correspondence: baton-scheduled runs with scheduler-chosen spurious wake-ups and time-outs replayed on the model; terminal-state oracle.",
+            "the counter is the number of live DisableQueueNotify objects after any history of constructions, copies and destructions (C07_dqn_counts_live; counter-example for the shared copy the class had); "
+            "bridge over the regenerated destructor / special members / read-order fragment. Correspondence: baton-scheduled runs with scheduler-chosen spurious wake-ups and time-outs, copies of and assignments to DisableQueueNotify objects, "
+            "replayed on the model; terminal-state oracle that counts live objects from the calls made.",
             "condition variable replaced by its specification (wake-ups may be spurious, notify_one wakes one parked waiter chosen by the scheduler)", "5.7"),
     "C10": ("Lean theorems: copy / move / swap / assignment of callback lists (independent node sets, order preserved, handles of the source stay with the source, moved-from is empty and usable) on the pointer Model; queue copies "
             "take listeners and filters, not pending events; every scalar member of every constructor is initialised and with the literal 0 (tables regenerated from the source). Correspondence: copy / move / swap histories; queue "
             "copies constructed by placement new over pre-filled storage with live DisableQueueNotify objects on the source.", "", "5.10"),
     "C11": ("Lean theorems on the concurrent model: an emptyQueue() that returns true implies every event enqueued before the call began has been consumed (programs without processIf / processUntil, as the property says), "
             "emptyQueue is false while a dispatch of a taken event is in progress, listeners see the queue non-empty; bridge: the read order of emptyQueue() and doCanProcess() regenerated from the source; sequential counterpart on the queue machine. "
-            "Correspondence: the claim is evaluated along the implementation's own step order.", "sequential consistency assumed", "5.11"),
+            "Correspondence: the claim is evaluated along the implementation's own step order by the model driver, and once more on the implementation's trace alone (call begin / end marks).", "sequential consistency assumed", "5.11"),
     "C12": ("Lean theorems on the dispatcher / queue machine: a dispatch is the pure function dispatchCalls (filters in order on lvalue arguments, rewrites seen by later filters and all listeners, first false stops that dispatch only), "
             "identical for direct and queued dispatch; removed filters never run; canContinueInvoking is part of the machine (consulted after every listener on the current arguments; a stopped queued dispatch still consumes its event) and of the "
             "pointer Model of the list (operator() = forEachIf with the policy's verdict); conditionalFunctor / argumentAdapter as small algebraic models. Correspondence: variants with the policy (by-value parameters), two mixins, wrapped listeners.",
@@ -40,12 +42,13 @@ LEVELS = {
             "are merged in position, the multiset of events is preserved. Correspondence: ascending and descending comparators, many duplicate keys, put-back and enqueue during processing.", "", "5.13"),
     "C15": ("Lean theorems on the remover model: responsibility invariant (every listener added through a remover is recorded by exactly one live remover until removed), nothing attached through removers once all are gone, "
             "move construction / move assignment / swap pass responsibility, listeners not added through the remover are never touched, remove through the remover detaches at once and reports whether it was attached. "
-            "Correspondence: generated remover histories incl. listeners detached directly while their node is held; the property's clauses are also evaluated on the implementation's output.",
+            "Correspondence: generated remover histories incl. listeners detached directly while their node is held, removal through an equivalent key of a custom Map policy and for another event; "
+            "the property's clauses are also evaluated on the implementation's output (responsibility tracked through moves and swaps).",
             "sequential histories (the property's quantifier); concurrent use of one remover is not modelled", "5.15"),
     "C16": ("Lean theorems over the wrapper bodies regenerated from the source: a CounterRemover listener with count n is removed exactly when its k-th trigger has k = max(n,1) (all n incl. INT_MIN, all k, no overflow), "
             "is never called after removal; ConditionalRemover removes exactly at the first trigger whose condition holds; nested triggers. Correspondence: generated histories with both wrappers under UBSan.", "", "5.16"),
     "C19": ("Lean theorems with no wrap hypothesis: the Model invariant holds along every run incl. generation-counter wraps (C19_inv); after any history, with no traversal running, the simulation of C02 applies again; for traversals in "
             "progress at a wrap every snapshot survivor is still called exactly once, in order, and the only extra calls are callbacks added during the invocation (C19_during_once, C19_trace_once stated on the trace); the wrap branch of "
-            "getNextCounter is regenerated from the source and proved equal to the Model's. Correspondence: setcounter placed anywhere in re-entrant programs.",
+            "getNextCounter is regenerated from the source and proved equal to the Model's. Correspondence: setcounter (next to the wrap, and half way round the circle) placed anywhere in re-entrant programs.",
             "counter wrap is outside the concurrent model", "5.19"),
 }
